@@ -13,6 +13,9 @@ package conf
 //   durlib <x> <fmthex> <p1> <p2>               library facts used as hypotheses of duration_rt (0 < x < 1 day)
 //   ss <s>                                      StringSize(s).MarshalJSON -> UnmarshalJSON; answer <hex text> <value|E>
 //   ipn <texthex>                               IPNetwork from text, then marshal -> unmarshal; answer invalid|eq|diff
+//   apijson <g|p> <jsonhex>
+//       hostile leaf values through the API decoders: jsonwrapper.Unmarshal into OptionalGlobal (g) / OptionalPath (p)
+//       under recover. answer ok | err | panic (a panic is a FAIL: the API must reject, not crash)
 //   conf <seed> ss=<field:val,..> du=<field:val,..>
 //       a configuration built by reflection from <seed> (every leaf drawn over its domain), encoded as the API
 //       returns it and decoded as an API patch/replace would; answer eq | diff <fields> | err <part>
@@ -128,6 +131,26 @@ func verifC08Exec(op string) string {
 			return "diff"
 		}
 		return "eq"
+	case "apijson":
+		return func() (res string) {
+			defer func() {
+				if r := recover(); r != nil {
+					res = "panic"
+				}
+			}()
+			var err error
+			if f[1] == "g" {
+				var og OptionalGlobal
+				err = jsonwrapper.Unmarshal(verifutil.UnHex(f[2]), &og)
+			} else {
+				var op OptionalPath
+				err = jsonwrapper.Unmarshal(verifutil.UnHex(f[2]), &op)
+			}
+			if err != nil {
+				return "err"
+			}
+			return "ok"
+		}()
 	case "conf":
 		seed, _ := strconv.ParseUint(f[1], 10, 64)
 		return verifC08ConfRT(seed)
@@ -457,6 +480,128 @@ func verifC08ConfOp(seed uint64) string {
 	return fmt.Sprintf("conf %d ss=%s du=%s", seed, l(bt.ss), l(bt.du))
 }
 
+// ---------- hostile leaf values through the API JSON decoders ----------
+
+type verifC08HLeaf struct {
+	kind string // g: global patch, p: path patch
+	path []any
+	typ  reflect.Type
+}
+
+func verifC08HWalk(kind string, path []any, t reflect.Type, out *[]verifC08HLeaf) {
+	for t.Kind() == reflect.Pointer {
+		t = t.Elem()
+	}
+	cp := func(x any) []any { return append(append([]any(nil), path...), x) }
+	if _, ok := reflect.New(t).Interface().(json.Unmarshaler); ok {
+		*out = append(*out, verifC08HLeaf{kind, path, t})
+		if t.Kind() != reflect.Struct {
+			return
+		}
+	}
+	switch t.Kind() {
+	case reflect.Struct:
+		for i := 0; i < t.NumField(); i++ {
+			tag := strings.Split(t.Field(i).Tag.Get("json"), ",")[0]
+			if tag == "-" || tag == "" || tag == "paths" || tag == "pathDefaults" {
+				continue
+			}
+			verifC08HWalk(kind, cp(tag), t.Field(i).Type, out)
+		}
+	case reflect.Slice:
+		if t.Elem().Kind() == reflect.Struct || reflect.PointerTo(t.Elem()).Implements(reflect.TypeOf((*json.Unmarshaler)(nil)).Elem()) {
+			verifC08HWalk(kind, cp(0), t.Elem(), out)
+			return
+		}
+		*out = append(*out, verifC08HLeaf{kind, path, t})
+	case reflect.Map:
+	default:
+		*out = append(*out, verifC08HLeaf{kind, path, t})
+	}
+}
+
+var (
+	verifC08HAll   []verifC08HLeaf
+	verifC08HTypes []verifC08HLeaf
+)
+
+func verifC08HInit() {
+	if verifC08HAll != nil {
+		return
+	}
+	verifC08HWalk("g", nil, reflect.TypeOf(Conf{}), &verifC08HAll)
+	verifC08HWalk("p", nil, reflect.TypeOf(Path{}), &verifC08HAll)
+	seen := map[reflect.Type]bool{}
+	for _, lf := range verifC08HAll {
+		if !seen[lf.typ] {
+			seen[lf.typ] = true
+			verifC08HTypes = append(verifC08HTypes, lf)
+		}
+	}
+}
+
+var verifC08HTexts = []string{"", " ", "  ", "   ", "\t", "\t\n", "\n", "\r\n", "\u00a0", "\u00a0 ", " \t ", "-", "+", "K", " K", "K ", "  K", " 1", "1 ", " 10s ", "\xff", "\xc3",
+	"B", "d", "-d", "s", "h", ".", "1.", ".K", "e", "1e9999", "0x", "_", "%", ",", ",,", "/", "/8", "1.2.3.4/", ":", "::/", "sha256:", "argon2:", "argon2:$", "~", "null",
+	"99999999999999999999999999999999999999", "99999999999999999999999999999999999999K", "99999999999999999999999999999999999999d", "1" + strings.Repeat("0", 400),
+	strings.Repeat(" ", 64), "\u3000", "\ufeff", "1\u00a0K", "+-1", "--1", "\uff11", "-0d", "1 d"}
+
+// raw JSON values that are not strings
+var verifC08HTokens = []string{"null", "5", "-1", "1e400", "true", "[]", "{}", "[null]", "{\"a\":1}", "[[]]", "1.5", "[\"\"]", "[\" \"]"}
+
+func verifC08HSet(tree any, path []any, val any) any {
+	if len(path) == 0 {
+		return val
+	}
+	switch k := path[0].(type) {
+	case string:
+		m, _ := tree.(map[string]any)
+		if m == nil {
+			m = map[string]any{}
+		}
+		m[k] = verifC08HSet(m[k], path[1:], val)
+		return m
+	case int:
+		l, _ := tree.([]any)
+		for len(l) <= k {
+			l = append(l, map[string]any{})
+		}
+		l[k] = verifC08HSet(l[k], path[1:], val)
+		return l
+	}
+	return tree
+}
+
+func verifC08HOp(lf verifC08HLeaf, raw string) string {
+	const mark = "@@H@@"
+	b, _ := json.Marshal(verifC08HSet(map[string]any{}, lf.path, mark))
+	doc := strings.Replace(string(b), "\""+mark+"\"", raw, 1)
+	return "apijson " + lf.kind + " " + verifutil.HexS(doc)
+}
+
+func verifC08HQuote(text string) string {
+	if strings.ToValidUTF8(text, "") == text {
+		q, _ := json.Marshal(text)
+		return string(q)
+	}
+	return "\"" + text + "\"" // raw invalid UTF-8 inside the JSON string
+}
+
+func verifC08HCount() int {
+	verifC08HInit()
+	return len(verifC08HTypes) * (len(verifC08HTexts) + len(verifC08HTokens))
+}
+
+func verifC08HCase(i int) string {
+	verifC08HInit()
+	per := len(verifC08HTexts) + len(verifC08HTokens)
+	lf := verifC08HTypes[i/per]
+	j := i % per
+	if j < len(verifC08HTexts) {
+		return verifC08HOp(lf, verifC08HQuote(verifC08HTexts[j]))
+	}
+	return verifC08HOp(lf, verifC08HTokens[j-len(verifC08HTexts)])
+}
+
 // ---------- generator ----------
 
 var verifC08HostileDur = []string{"", "d", "1d", "-1d", "-0d", "0d", "1d1h", "1d-1h", "-1d-1h", "--1d", "+1d", "1.5d", "1dd", "d1", "1 d", " 1d", "1d ",
@@ -473,6 +618,27 @@ func verifC08Gen(r *verifutil.Rand, i int, thorough bool) []string {
 	j := i - len(verifC08HostileDur)
 	if j < len(boundaries) {
 		return []string{verifC08DurOp(boundaries[j])}
+	}
+	j -= len(boundaries)
+	if j < verifC08HCount() {
+		return []string{verifC08HCase(j)}
+	}
+	if r.Chance(1, 15) {
+		verifC08HInit()
+		lf := verifC08HAll[r.Intn(len(verifC08HAll))]
+		text := verifC08HTexts[r.Intn(len(verifC08HTexts))]
+		switch r.Intn(6) {
+		case 0:
+			text = " " + text
+		case 1:
+			text += "\t"
+		case 2:
+			text = string(r.Bytes(1 + r.Intn(3)))
+		}
+		if r.Chance(1, 8) {
+			return []string{verifC08HOp(lf, verifC08HTokens[r.Intn(len(verifC08HTokens))])}
+		}
+		return []string{verifC08HOp(lf, verifC08HQuote(text))}
 	}
 	g := &verifC08Filler{r: r}
 	switch c := r.Intn(100); {
@@ -551,7 +717,7 @@ func verifC08Class(op, impl string) string {
 		if j := strings.IndexByte(impl, ' '); j >= 0 {
 			a = impl[:j]
 		}
-	case a == "E" || a == "eq" || a == "diff" || a == "invalid" || a == "lib":
+	case a == "E" || a == "eq" || a == "diff" || a == "invalid" || a == "lib" || k == "apijson":
 	default:
 		a = "value"
 	}
@@ -560,7 +726,7 @@ func verifC08Class(op, impl string) string {
 
 func TestVerifC08(t *testing.T) {
 	verifutil.Main(t, &verifutil.Harness{
-		ID: "C08", Exec: verifC08Exec, Gen: verifC08Gen, Quick: 6000, Thorough: 200000,
+		ID: "C08", Exec: verifC08Exec, Gen: verifC08Gen, Quick: 7500, Thorough: 200000,
 		Class: verifC08Class,
 	})
 }
